@@ -193,7 +193,7 @@ package parquet
 //@   ensures forall q in 0..allocbound(): cast("*parquet.readCounter", q).r == old(cast("*parquet.readCounter", q).r)
 //@   ensures[C10] err == nil ==> (rfault ==> old(rfault))
 //@   ensures[C08] err == nil ==> srcPos == old(srcPos) + thriftLen(srcB, old(srcPos)) && thriftLen(srcB, old(srcPos)) >= 1
-//@   ensures[C08] err == nil && isRC(r) ==> asRC(r).n == old(asRC(r).n) + thriftLen(srcB, old(srcPos))
+//@   ensures[C08] err == nil && old(isRC(r)) ==> asRC(r).n == old(asRC(r).n) + thriftLen(srcB, old(srcPos))
 
 //@ func pageData
 //@   split isRC(r)
@@ -203,7 +203,8 @@ package parquet
 //@   ensures[C10] err == nil ==> (rfault ==> old(rfault))
 //@   ensures[C08] err == nil && (pg.Codec == 1 || pg.Codec == 2) ==> srcPos == old(srcPos) + ph.CompressedPageSize
 //@   ensures[C08] err == nil && pg.Codec == 0 ==> srcPos == old(srcPos) + ph.UncompressedPageSize
-//@   ensures[C08] err == nil && isRC(r) ==> asRC(r).n == old(asRC(r).n) + (srcPos - old(srcPos))
+//@   ensures old(isRC(r)) ==> asRC(r).r == old(asRC(r).r)
+//@   ensures[C08] err == nil && old(isRC(r)) ==> asRC(r).n == old(asRC(r).n) + (srcPos - old(srcPos))
 
 //@ func readLevels
 //@   requires width <= 4 && dyn(in) == typeid("*bytes.Buffer") && payload(in) != 0
